@@ -90,7 +90,7 @@ SameShape(A, B) == /\ DOMAIN A = DOMAIN B
 CountOk == Cardinality({f \in dropped : res[f] = "ok"})
 TEnd == /\ IsEv("End")
         /\ IF Full THEN /\ SameShape(fs, Inv)                                        \* binds FS semantics to the kernel's
-                        /\ (~crashed => (\A f \in dropped : pc[f] = "done") /\ R.processed = CountOk)
+                        /\ (~crashed => (\A f \in dropped : pc[f] = "done") /\ (R.processed = -2 \/ R.processed = CountOk))     \* -2: the count printed by the command is not comparable (other groups in the report)
                         /\ UNCHANGED fs
            ELSE fs' = Inv                                                            \* obs: look at the real state only
         /\ ended' = TRUE
@@ -125,7 +125,7 @@ Replaced(f) == CASE Op = "remove" -> f \notin DOMAIN fs
                  [] OTHER -> FALSE
 \* Processed N = number of files really replaced; a failure is warned about
 ObsCount == (ended /\ ~Full /\ plan # "kill" /\ Op # "reflink") =>
-               /\ Prev.processed = Cardinality({f \in members : Replaced(f)})
+               /\ (Prev.processed = -2 \/ Prev.processed = Cardinality({f \in members : Replaced(f)}))
 ObsWarned == (ended /\ ~Full /\ plan \in {"fail1", "fail2"} /\ Op # "reflink" /\ Op # "move") =>
                (Cardinality({f \in dropped : Replaced(f)}) < Cardinality(dropped) => Prev.warns >= 1)
 \* single fault, no crash: no original is left stranded under a temporary name
